@@ -163,7 +163,7 @@ def prepare_op(case, df1, path, other):
         if scheme == "simple":
             raise NotApplicable("needs a multi-file dataset")
         other_pn = [c["name"] for c in vcols if c["kind"] in ("int", "bool")][:1]
-        if pn and case["colpos"] == "last":
+        if pn and case["rowpos"] == "later_rg":
             kw.pop("partition_on", None)          # no partitioning at all given for a partitioned dataset
         elif pn:
             kw["partition_on"] = pn[:-1] if len(pn) > 1 else (other_pn or ["__nope__"])
